@@ -144,7 +144,12 @@ pub fn check(sc: &Scenario, out: &RunOutput) -> OracleResult {
             let path_ip = [sc.net.blackhole_ip, sc.net.emsgsize_ip, Some(link)].into_iter().flatten().min().unwrap();
             let fit = max_payload(path_ip, ipv6).max(floor).min(max_payload(link, ipv6));
             let n_seg = first_tx_sizes.len();
-            if n_seg >= 200 {
+            // (a probe is cut from bytes the application has buffered beyond what is in flight:
+            // a transmit buffer that cannot hold a segment in flight plus a larger probe never
+            // gets to probe again - a limit of the configuration, not of the discovery)
+            let o = &sc.nodes[n].opts;
+            let ring_ok = o.tx_init().max(o.tx_max()) >= 2 * fit + floor;
+            if n_seg >= 200 && ring_ok {
                 let tail_max = first_tx_sizes[n_seg - 40..].iter().filter(|(_, probe)| !*probe).map(|(l, _)| *l).max().unwrap_or(0);
                 if tail_max != fit {
                     res.violate(P, "did-not-converge", out.t_end, format!("node {}: after {} segments the largest ordinary payload among the last 40 is {} but the largest that fits is {} (path IP limit {}, link {})", n, n_seg, tail_max, fit, path_ip, link));
